@@ -301,7 +301,10 @@ def compare_block(phasing0, phasing1):
         minimum_hamming_distance = int(minimum_hamming_distance)
     else:
         switches = compute_switch_errors_poly(phasing0, phasing1, matching_pos)
-        switch_flips = compute_switch_flips_poly(phasing0, phasing1)
+        # among the decompositions with minimal switches + flips report the one with the fewest flips, so that
+        # the result does not depend on the order in which the haplotypes are listed (costs stay exact integers)
+        k = ploidy * len(phasing0[0]) + 1
+        switch_flips = compute_switch_flips_poly(phasing0, phasing1, switch_cost=k, flip_cost=k + 1)
 
     return PhasingErrors(
         switches=switches,
